@@ -48,13 +48,15 @@ def model_signature(m):
     equation on one fixed data array (the equation text itself may differ cosmetically: := vs =, ^ vs **, parentheses of a substitution)."""
     n2q = m.create_name_to_qid()
     nq = max(n2q.values()) + 1
-    fixed = np.array([[1.0 + ((7 * q + 3 * c) % 11) / 7.0 for c in range(16)] for q in range(nq)], dtype=float)
-    for nme, q in n2q.items():
-        if nme.startswith("ant_") or nme.startswith("std_"):
-            fixed[q, :] = 0.0
+    # (the data of a quantity depend on its NAME, not on its position: the declaration order is a choice of the rendering)
+    fixed = np.zeros((nq, 16), dtype=float)
+    for r, nme in enumerate(sorted(n2q)):
+        fixed[n2q[nme], :] = 0.0 if (nme.startswith("ant_") or nme.startswith("std_")) else [1.0 + ((7 * r + 3 * c) % 11) / 7.0 for c in range(16)]
     dyn = tuple(np.round(np.asarray(m._invariant._plain_dynamic_equator.eval(fixed, 8), dtype=float).flatten(), 9).tolist())
     std = tuple(np.round(np.asarray(m._invariant._plain_steady_equator.eval(fixed, 8), dtype=float).flatten(), 9).tolist())
-    return (tuple(m.get_names()), tuple(sorted(m.create_name_to_description().items())), tuple(sorted(dict(m.get_log_status()).items())), dyn, std)
+    pars = set(m.get_names(kind=ir.PARAMETER))
+    # (the order of the parameters is a choice of the rendering; it is compared with the declared order in check())
+    return (tuple(n for n in m.get_names() if n not in pars), tuple(sorted(pars)), tuple(sorted(m.create_name_to_description().items())), tuple(sorted(dict(m.get_log_status()).items())), dyn, std)
 
 
 def _cst(meaning):
@@ -72,7 +74,7 @@ class _OneFingerprint:
         self.chk.mismatch("lang:nested-pseudofunctions", what, payload)
 
 
-def check(chk, sc, text, meaning, rnd, signatures):
+def check(chk, sc, text, meaning, rnd, signatures, paorder=None):
     if sc["mid"] == "D":
         chk = _OneFingerprint(chk)
     payload = {"kind": "lang", "model": sc["mid"], "choices": _plain(sc["ch"]), "text": list(text)}
@@ -81,7 +83,7 @@ def check(chk, sc, text, meaning, rnd, signatures):
     tag = "lang:%s" % ch["fac"]
     desc = "model %s rendered with %s:\n%s" % (sc["mid"], {k: v for k, v in sorted(_plain(ch).items())}, src)
     try:
-        m = ir.Simultaneous.from_string(src, context={"flag": bool(meaning["flag"]), "names": ["a", "b"], "cst": _cst(meaning)})
+        m = ir.Simultaneous.from_string(src, context={"flag": bool(meaning["flag"]), "names": ["a", "b"], "cst": _cst(meaning), "third": meaning["eqs"][2]["desc"]})
     except Exception as ex:
         chk.mismatch(tag + ":raised:" + type(ex).__name__, desc + "\nraised %r" % (ex,), payload)
         return
@@ -93,6 +95,8 @@ def check(chk, sc, text, meaning, rnd, signatures):
     logs = dict(m.get_log_status())
     for key, kind in kinds.items():
         want = [q[0] for q in meaning[key]]
+        if key == "pa" and paorder is not None:
+            want = list(paorder)
         got = [n for n in m.get_names(kind=kind) if not n.startswith("std_")]
         if got != want:
             chk.mismatch(tag + ":names:" + key, desc + "\nnames of kind %s are %r, declared %r" % (key, got, want), payload)
@@ -160,7 +164,7 @@ def run(chk):
         if not st["out"]["expanded"]:
             raise MachineryError("ModelLangMC: expansion not total")
         text = st["out"]["text"]
-        check(chk, st["sc"], text, meanings[st["sc"]["mid"]], rnd, signatures)
+        check(chk, st["sc"], text, meanings[st["sc"]["mid"]], rnd, signatures, paorder=st["out"]["paorder"])
         for k, v in st["sc"]["ch"].items():
             seen.setdefault(k, set()).add(v)
         n += 1
